@@ -47,7 +47,9 @@ orc_init (void)
 #ifdef ORC_VERIF_HOOKS
   ORC_VERIF_POINT (ORC_VERIF_PT_INIT_READ_FAST);
 #endif
-  if (!inited) {
+  /* The flag is only ever read and written under the lock: an unlocked
+   * first check would race with the initialising thread's store. */
+  {
     orc_global_mutex_lock ();
 #ifdef ORC_VERIF_HOOKS
     ORC_VERIF_POINT (ORC_VERIF_PT_INIT_READ_SLOW);
